@@ -52,6 +52,27 @@ fn main() {
     }
     let seed: i64 = std::env::var("VERIF_SEED").ok().and_then(|s| s.parse().ok()).unwrap_or(0);
     quiet_panics();
+    if args[1] == "debug-rib" {
+        let cfg = p_ribbon::RibCfg { fs: 334, softpot: 20e3, dropper: 820.0, pullup: 1e6 };
+        let mk = || p_ribbon::RibM::<6>::new(cfg, vec![0.4, 1.0, 0.0], false, false, 2).unwrap();
+        if let Some((a, b, d)) = explore::find_key_incompleteness(mk(), 400000) {
+            println!("same key, different successors:\n  A: {}\n  B: {}\n  {}", a.join(","), b.join(","), d);
+        }
+        let b = explore::reach_bfs(mk());
+        let d = explore::reach_dfs(mk());
+        println!("bfs {} dfs {}", b.len(), d.len());
+        let mut extra: Vec<(&u128, &Vec<String>)> = d.iter().filter(|(k, _)| !b.contains_key(*k)).collect();
+        extra.sort_by_key(|(_, p)| p.len());
+        for (k, p) in extra.iter().take(3) {
+            println!("only in dfs: {:032x} path len {}: {}", k, p.len(), p.join(","));
+        }
+        let mut extra2: Vec<(&u128, &Vec<String>)> = b.iter().filter(|(k, _)| !d.contains_key(*k)).collect();
+        extra2.sort_by_key(|(_, p)| p.len());
+        for (k, p) in extra2.iter().take(3) {
+            println!("only in bfs: {:032x} path len {}: {}", k, p.len(), p.join(","));
+        }
+        std::process::exit(0);
+    }
     if args[1] == "replay" {
         std::process::exit(replay(&rest));
     }
